@@ -180,7 +180,7 @@ fn canon_unsub_all(kind: &[u8], l: &mut Vec<V>) {
 pub fn req_name(req: &V) -> Vec<u8> {
     match req { V::Array(l) => match l.first() { Some(V::Bulk(b)) => b.to_ascii_uppercase(), _ => vec![] }, _ => vec![] }
 }
-const RANDOM_CMDS: &[&[u8]] = &[b"RANDOMKEY", b"SPOP", b"SRANDMEMBER", b"XADD"];
+const RANDOM_CMDS: &[&[u8]] = &[b"RANDOMKEY", b"SPOP", b"SRANDMEMBER", b"XADD", b"SCRIPT"];
 
 pub struct Runner { pub srv: Srv, pub conns: HashMap<i128, Client>, pub t0: Instant, pub logical: i128, pub drift_bad: bool, pub queues: HashMap<i128, Vec<Vec<u8>>>, pub password: Option<String>, pub ctl_authed: bool, pub quit_sent: std::collections::HashSet<i128> }
 
@@ -192,6 +192,7 @@ impl Runner {
         match &name[..] {
             b"CONN" => { let c = tok_int(&op[1]); match Client::connect(self.srv.port) { Some(cl) => { self.conns.insert(c, cl); (op.to_vec(), vec![i(1)]) } None => (op.to_vec(), vec![i(0)]) } }
             b"CLOSE" => { let c = tok_int(&op[1]); self.conns.remove(&c); std::thread::sleep(Duration::from_millis(15)); (op.to_vec(), vec![]) }
+            b"NOTE" => (op.to_vec(), vec![]),      // annotation for the judge (C12 twin pairs); no effect
             b"SLEEP" => {
                 self.logical += tok_int(&op[1]);
                 let target = Duration::from_millis(self.logical as u64);
